@@ -18,7 +18,7 @@ type Obs struct {
 	Neg     bool     `json:"neg"`
 	Words   []string `json:"words"` // BitsExp words, little-endian, as decimal strings
 	Exp     int32    `json:"exp"`   // BitsExp exponent (raw; meaningful for finite values only)
-	Prec    int64    `json:"prec"`  // clamped to 2^31-1 (TLC integers)
+	Prec    int64    `json:"prec"`  // values >= 2^30 are reported as 2^30 (TLC integers)
 	Mode    int      `json:"mode"`
 	Acc     int      `json:"acc"`
 	MinPrec int64    `json:"minprec"`
@@ -26,9 +26,10 @@ type Obs struct {
 	Bad     string   `json:"bad"` // set when an accessor itself panicked
 }
 
+// clamp31 maps values at or above 2^30 to the sentinel 2^30 (TLC integers are 32-bit; the model's MaxPrec).
 func clamp31(v uint64) int64 {
-	if v > 1<<31-1 {
-		return 1<<31 - 1
+	if v >= 1<<30 {
+		return 1 << 30
 	}
 	return int64(v)
 }
